@@ -17,6 +17,18 @@ CHECKS = {
         "urllib.parse of CPython 3.12.1; vlib/refurl.py as the reference; wire lane uses the in-memory TLS harness",
         "DESIGN.md §2 C19",
     ),
+    "C01": (
+        "exploration",
+        "Hypothesis-generated handler/middleware scripts x request bytes x segmentations x schedules on the real "
+        "protocol under a virtual clock; well-formedness + exact-bytes differential oracle",
+        "Generated search over request bytes, read segmentations, handler/middleware/upload outcomes and event "
+        "orderings (data, timer, gate release, disconnect) against an explicit wire oracle: exactly one well-formed "
+        "response then close, byte-exact when the responsible component produced a sendable value. Finds "
+        "counterexamples; does not prove absence.",
+        "FakeTransport mirrors the after-close semantics of the two real app transports; CPython 3.12.1 asyncio; "
+        "TLS-stack lane uses ssl.MemoryBIO peers",
+        "DESIGN.md §2 C01",
+    ),
 }
 
 PENDING_REASON = "check not built yet in this round (work in progress; technique applies, see DESIGN.md)"
